@@ -26,7 +26,7 @@ REQUIRED_CELLS = {t: tuple("target:" + x for x in iohelp.TARGETS) + tuple("delim
                   tuple("enc:" + e for e in iohelp.ENCODINGS) + ("ids:int", "ids:str", "ids:nonascii", "ids:numstr",
                                                                "class:DynGraph", "class:DynDiGraph",
                                                                "log:unclosed-single", "log:repeated-plus",
-                                                               "src:big(>256 events)")
+                                                               "src:big(>256 events)", "src:block-aligned-rows")
                   for t in ("quick", "thorough")}
 
 
@@ -118,7 +118,9 @@ def roundtrip(ctx, dn, directed, idkind, delim, enc, target, big=False):
                 ctx.finding("read:presence", "known:point-extended-run-unclosed",
                             dict(cfg, note="presence read back equals the deviant model exactly"))
                 h = dev
-        guarded(ctx, "read:audit", audit.audit_all, ctx, dn, H, h, "read:", ("C01", "C03", "C04"))
+        # (the per-snapshot audit builds one static graph per id: skipped for the 35 000-pair log)
+        guarded(ctx, "read:audit", audit.audit_all, ctx, dn, H, h, "read:",
+                ("C01", "C03") if big == "aligned-log" else ("C01", "C03", "C04"))
         def norm(evs):
             # same events irrespective of the integer type of the stamps (numpy / python) and of the order inside
             # an instant
@@ -211,6 +213,11 @@ def run(ctx, dn):
     rng.shuffle(grid)
     n = 0
     roundtrip(ctx, dn, rng.random() < 0.5, "int", rng.choice(iohelp.DELIMS), "utf-8", rng.choice(iohelp.TARGETS), big=True)
+    if ctx.shard % 4 == 1:
+        # an event log whose rows are 16 bytes each (64 KiB / 1 MiB block boundaries fall between two rows)
+        roundtrip(ctx, dn, ctx.shard % 8 == 1, "int", None, "utf-8", rng.choice(("path.txt", "path.gz", "bytesio")),
+                  big="aligned-log")
+        ctx.cell("src:block-aligned-rows")
     while ctx.time_left() > 1:
         roundtrip(ctx, dn, *grid[n % len(grid)])
         if n < 2:
